@@ -139,3 +139,16 @@ Theorem topic_publish_sync mx ops mid now :
   snd (tstep mx s (TPublishSync mid now)) = map (fun c => TDelivery c mid now) (actives (t_subs s)) /\
   NoDup (actives (t_subs s)).
 Proof. cbn zeta. split; [reflexivity|]. apply actives_nodup, trun_from_nodup. constructor. Qed.
+
+(** The hypotheses of [topic_exactly_once] are satisfiable: two subscribers,
+    one publish in progress, a later unsubscribe does not disturb it. *)
+Example topic_hypotheses_satisfiable :
+  let s := trun None [TSubscribe 1; TSubscribe 2; TPublishBegin 9 0] in
+  lookup 9 (t_frames s) = Some (0, [1; 2], 0) /\
+  Forall (fun o => thandle o <> Some 9) [TUnsubscribe 2; TPublishBegin 10 1] /\
+  snd (tstep None (fst (trun_from None s [TUnsubscribe 2; TPublishBegin 10 1; TPublishResume 9 5])) (TPublishResume 9 7))
+    = [TDelivery 1 0 7; TDelivery 2 0 7].
+Proof.
+  cbn zeta. split; [vm_compute; reflexivity|]. split; [|vm_compute; reflexivity].
+  repeat constructor; discriminate.
+Qed.
